@@ -5,6 +5,7 @@ From Coq Require Import ZArith List QArith Qcanon Bool Permutation.
 From SG Require Import Base.QcUtil Model.DataSet Proofs.DataSetVec Proofs.DataSetScale Proofs.DataSetRevert Proofs.DataSetMove
   Proofs.DataSetRevertPerm Proofs.DataSetWitness.
 From SG Require Import Model.DataSetOff Proofs.DataSetTrack Proofs.DataSetOffP Proofs.DataSetHistory Proofs.DataSetDerived.
+From SG Require Import Base.Sx Model.DataSetStore Proofs.DataSetLabels Proofs.DataSetConcat Proofs.DataSetDegenerate Entry.C18 Proofs.DataSetWire Proofs.DataSetStoreMoves.
 Import ListNotations.
 Open Scope Qc_scope.
 
@@ -379,3 +380,122 @@ Theorem C18_operations_touch_only_their_own_data_set : forall v (st : list tds) 
   nth_error (tstep v st o) k = nth_error st k.
 Proof. exact tstep_frame. Qed.
 Print Assumptions C18_operations_touch_only_their_own_data_set.
+
+
+(* ==================================================================================================================
+   Phase 3.
+   ================================================================================================================== *)
+
+(* ---- (1) the wire machine IS the machine of the theorems.  Entry/C18.v decodes a wire operation (dec_op) and lets the store evolve by
+   sstep_res of Model/DataSetStore.v; tstep (the machine of C18_repaired_history_tracked, now with remove_labels and split_one_vs_others)
+   is that machine plus the ghost reference lists.  So the extracted correspondence runs exactly the proved machine. *)
+Theorem C18_wire_step_is_store_machine : forall v st op o, dec_op op = Some o -> fst (step2 v st op) = sstep v st o.
+Proof. exact step2_is_sstep. Qed.
+Theorem C18_history_machine_is_store_machine : forall v (gst : list tds) o, v_offset v = true ->
+  map fst (tstep v gst o) = sstep v (map fst gst) o.
+Proof. exact tstep_is_sstep. Qed.
+Theorem C18_wire_run_is_history_run : forall v ops sops, v_offset v = true -> map dec_op ops = map Some sops ->
+  forall (gst : list tds), stores2 v (map fst gst) ops = map fst (trun v gst sops).
+Proof. exact run2_is_trun. Qed.
+(* the remaining wire operations (same_scaling, getters) never write; only the harness-directed re-synchronisation (13) replaces a data set *)
+Theorem C18_wire_other_operations_do_not_write : forall v st op, dec_op op = None ->
+  (forall h snap, op <> Lv [Zv 13; Zv h; snap]) -> fst (step2 v st op) = st.
+Proof. exact step_other_frame. Qed.
+Print Assumptions C18_wire_step_is_store_machine.
+Print Assumptions C18_history_machine_is_store_machine.
+Print Assumptions C18_wire_run_is_history_run.
+Print Assumptions C18_wire_other_operations_do_not_write.
+
+(* ---- (2) remove_labels and split_one_vs_others inside the history machine (constructors SRemoveLabels / SOneVsOthers of sop: covered by
+   C18_repaired_history_tracked, C18_repaired_ghost_erasure, C18_operations_touch_only_their_own_data_set above, whose statements
+   quantify over all operations of the extended type).  remove_labels is a natural row operation ... *)
+Theorem C18_remove_labels_is_natural : forall p idx d m,
+  remove_labels p idx d = set_rows_rebuilt d (rl_rows idx (rows d)) /\ natural_on m (rl_rows idx).
+Proof. intros p idx d m. split; [apply remove_labels_form | apply natural_rl_rows]. Qed.
+(* ... and split_one_vs_others (any label order handed in; None = the IndexError of class_numbers[label]) returns, per label of the order,
+   the samples of self in place, label 1 exactly on the samples of that class and one label in [-1, 0] on all others *)
+Theorem C18_split_one_vs_others_keeps_samples : forall order d sets, split_one_vs_others order d = Some sets ->
+  Forall2 (fun j s =>
+     map fst s = values d /\
+     Forall2 (fun src x => fst x = fst src /\ (snd src = j -> snd x = 1) /\ (snd src <> j -> - (1) <= snd x /\ snd x <= 0)) (rows d) s)
+   order sets.
+Proof. exact split_one_vs_others_keeps_samples. Qed.
+Print Assumptions C18_remove_labels_is_natural.
+Print Assumptions C18_split_one_vs_others_keeps_samples.
+
+(* ---- (3) concatenate on the repaired-offset model.  EQUAL accumulated maps: the joined set holds exactly the union of the operands'
+   samples, is the affine image of the joined reference lists, and revert_scaling restores BOTH operands (any code variant v) *)
+Theorem C18_concatenate_equal_maps_restores_both : forall v n a b Ra Rb fv cv r,
+  InvO n a Ra fv cv -> InvO n b Rb fv cv -> Ra ++ Rb <> [] -> concatenate_o v a b = CNewO r ->
+  rows (base r) = rows (base a) ++ rows (base b) /\
+  Permutation (rows (base r)) (rows (base a) ++ rows (base b)) /\
+  InvO n r (Ra ++ Rb) fv cv /\
+  exists r', revert_o true r = (r', false) /\ rows (base r') = Ra ++ Rb /\ cleared (base r') /\ soff r' = FNone.
+Proof. exact concatenate_equal_maps_restores_both. Qed.
+(* UNEQUAL maps (range-scaled set + factor-scaled set): accepted as long as concatenate does not compare the maps, and then revert_scaling
+   restores the first operand but not the second; refused (CRaiseO) by the coordinated repair *)
+Theorem C18_concatenate_unequal_maps_refuted :
+  same_affine cw_a cw_b = false /\
+  exists r r', concatenate_o (mkV2 repaired true false) cw_a cw_b = CNewO r /\ revert_o true r = (r', false) /\
+    strip_q (firstn 2 (rows (base r'))) = strip_q cw_Ra /\ strip_q (skipn 2 (rows (base r'))) <> strip_q cw_Rb /\
+    concatenate_o repaired2 cw_a cw_b = CRaiseO.
+Proof. exact concatenate_unequal_maps_refuted. Qed.
+Print Assumptions C18_concatenate_equal_maps_restores_both.
+Print Assumptions C18_concatenate_unequal_maps_refuted.
+
+(* ---- (4) scale_range column by column INCLUDING the degenerate column (0 <= data range < 10 eps): sklearn replaces such a range by 1,
+   so the column is moved to lo and stretched by (hi - lo) only - it stays within [lo, lo + 10 eps (hi - lo)): "mapped to the lower end".
+   Together with the regular case this closes the gap left in C18_scale_range_maps_extremes. *)
+Theorem C18_scale_range_every_column : forall lo hi ov d, wf d -> lo < hi ->
+  exists d' mn mx mn' mx',
+    data_min (values d) = Some mn /\ data_max (values d) = Some mx /\
+    scale_range lo hi ov d = (d', false) /\
+    data_min (values d') = Some mn' /\ data_max (values d') = Some mx' /\
+    forall j, (j < ddim d)%nat ->
+      nth j mn' 0 = lo /\
+      (eps10 <= nth j mx 0 - nth j mn 0 -> nth j mx' 0 = hi) /\
+      (nth j mx 0 - nth j mn 0 < eps10 ->
+         nth j mx' 0 = lo + (nth j mx 0 - nth j mn 0) * (hi - lo) /\ lo <= nth j mx' 0 /\ nth j mx' 0 < lo + eps10 * (hi - lo)).
+Proof. exact scale_range_every_column. Qed.
+Print Assumptions C18_scale_range_every_column.
+
+(* ---- non-vacuity *)
+Example C18_nonvacuous_wire : exists o, dec_op (Lv [Zv 15; Zv 0; Lv [Zv 1; Zv 2]; Lv [Zv 0]]) = Some o /\ o = SRemoveLabels 0 Qchalf [0%nat].
+Proof. eexists. split; [vm_compute; reflexivity|]. reflexivity. Qed.
+
+Example C18_nonvacuous_label_ops :
+  let st0 := [(fresh_o (rows wit_d0), rows wit_d0)] in
+  let ops := [SRange 0 0 1 false; SRemoveLabels 0 Qchalf [1%nat]; SOneVsOthers 0 [0%Z; 1%Z; (-1)%Z]; SRevert 0] in
+  hist_adm (mkV2 repaired true false) st0 ops /\
+  match nth_error (trun (mkV2 repaired true false) st0 ops) 0 with
+  | Some (d, R) => strip (rows (base d)) = strip R /\ map snd R = [0%Z; (-1)%Z; 0%Z; 1%Z] /\ Permutation (map fst (strip R)) (map fst (strip (rows wit_d0)))
+  | None => False
+  end /\
+  exists sets, split_one_vs_others [0%Z; 1%Z] (fresh (rows wit_d0)) = Some sets /\ length sets = 2%nat.
+Proof.
+  cbv zeta. split; [cbn [hist_adm]; repeat split; exact I|]. split.
+  - vm_compute. split; [reflexivity|]. split; [reflexivity|]. apply Permutation_refl.
+  - eexists. split; vm_compute; reflexivity.
+Qed.
+
+(* a degenerate column: data range 2^-60 < 10 eps; a regular one next to it *)
+Example C18_nonvacuous_degenerate :
+  let d := fresh [([0; 0], 0%Z); ([Q2Qc (1 # 1152921504606846976); 1], 1%Z)] in
+  wf d /\ (Q2Qc (1 # 1152921504606846976) - 0 < eps10) /\ (eps10 <= 1 - 0).
+Proof. cbv zeta. split; [split; [discriminate | repeat constructor]|]. split; vm_compute; reflexivity || (intro; discriminate). Qed.
+
+
+(* ---- (2') multiset preservation at the level of the store machine = the wire machine, from ANY store (hence at every step of every
+   history): shuffle / move_boundaries_to_front permute the (sample, label) pairs; the splits, remove_samples and concatenate partition /
+   join them; remove_labels keeps the multiset of samples; copy duplicates; split_one_vs_others leaves the store alone (its result sets:
+   C18_split_one_vs_others_keeps_samples).  See moves_ok in Proofs/DataSetStoreMoves.v for the per-operation statement. *)
+Theorem C18_store_machine_moves_keep_multiset : forall v st o, moves_ok v st o.
+Proof. exact sstep_moves_keep_multiset. Qed.
+Print Assumptions C18_store_machine_moves_keep_multiset.
+
+Example C18_nonvacuous_store_moves :
+  let st := [fresh_o (rows wit_d0)] in
+  labels_ok (fresh_o (rows wit_d0)) /\
+  exists d', nth_error (sstep repaired2 st (SRemoveLabels 0 Qchalf [0%nat; 2%nat])) 0 = Some d' /\
+    map snd (rows (base d')) = [(-1)%Z; 1%Z; (-1)%Z; 1%Z] /\ length (sstep repaired2 st (SSplitLabels 0)) = 3%nat.
+Proof. cbv zeta. split; [repeat constructor; vm_compute; discriminate|]. eexists. split; [vm_compute; reflexivity|]. split; vm_compute; reflexivity. Qed.
